@@ -404,6 +404,51 @@ impl Context {
     }
 }
 
+#[cfg(feature = "verif")]
+impl Context {
+    /// The shape of the context: states, memory blocks, static memory block map.
+    #[allow(clippy::type_complexity)]
+    pub fn verif_shape(
+        &self,
+    ) -> (
+        Vec<(usize, bool, usize)>,
+        Vec<(usize, bool, usize)>,
+        Vec<(String, usize)>,
+    ) {
+        let states = self
+            .states
+            .iter()
+            .map(|s| {
+                (
+                    s.memory_block_index,
+                    s.arguments.is_some(),
+                    s.arguments.as_ref().map(|a| a.iter().count()).unwrap_or(0),
+                )
+            })
+            .collect();
+        let blocks = self
+            .memory_blocks
+            .iter()
+            .map(|b| (b.ref_count, b.is_static, b.variables.len()))
+            .collect();
+        let mut statics: Vec<(String, usize)> = self
+            .static_memory_blocks
+            .iter()
+            .map(|(k, v)| (format!("{:?}", k), *v))
+            .collect();
+        statics.sort();
+        (states, blocks, statics)
+    }
+
+    /// The variables of every memory block, in index order.
+    pub fn verif_vars(&self) -> Vec<Vec<(String, Variant)>> {
+        self.memory_blocks
+            .iter()
+            .map(|b| b.variables.verif_entries())
+            .collect()
+    }
+}
+
 impl std::ops::Index<usize> for Context {
     type Output = Variant;
 
